@@ -352,7 +352,7 @@ theorem step_PF (hP : CP P) (cfg : Cfg) (s : St) (op : Op) (hst : ∀ x ∈ s.st
   · exact .inl h0
   · exact .inl h0
   · exact .inl h0
-  · exact .inl (releaseIfUsed_all hP.lax _ _ h0)
+  · exact .inl (by rw [releasePacketId_ev']; exact releaseIfUsed_all hP.lax _ _ h0)
   · exact .inl (eraseStoredPublish_all hP.lax _ _ h0)
   · exact .inl h0
   · exact .inl (by simp)
